@@ -107,29 +107,34 @@ Populated(pop) ==
   \* methods are enabled from the first step on
   /\ ups = [r \in Repos |-> IF r \in pop THEN ("u1" :> NewUp(0)) ELSE <<>>]
   /\ touched = pop
-NoCall == [o |-> [op |-> "none"], pol |-> <<>>, sc |-> NoScope, allow |-> {}]
+NoCall == [o |-> [op |-> "none"], pol |-> <<>>, sc |-> NoScope, allow |-> {}, fail |-> -1]
 FInit ==
   /\ imm \in ImmChoices
   /\ \E pop \in SUBSET Repos : Populated(pop)
   /\ res = NoRes /\ wres = NoRes /\ wpe = None /\ cons = <<>> /\ bcalls = <<>> /\ bscopes = <<>>
   /\ kind \in MCKinds /\ last = NoCall /\ step = 0
 
+\* a failing backend listing: from two start points, failing after 0..|Repos| items
+FailPoints(o) == IF o.op = "ListRepos" /\ o.startpos \in {0, 3} THEN 0..Cardinality(Repos) ELSE {}
 FNext ==
   /\ step < MaxSteps
   /\ step' = step + 1
   /\ kind' = kind
   /\ CASE kind = "checker" ->
             \E o \in C12Ops : \E f \in [Entries(o) -> {PolOk} \cup ErrIds] :
-               /\ CheckedApply(o, TableOf(f), NoScope)
-               /\ last' = [o |-> o, pol |-> TableOf(f), sc |-> NoScope, allow |-> {}]
+               /\ \/ CheckedApply(o, TableOf(f), NoScope) /\ last' = [o |-> o, pol |-> TableOf(f), sc |-> NoScope, allow |-> {}, fail |-> -1]
+                  \/ \E k \in FailPoints(o) : CheckedListFail(o, TableOf(f), NoScope, k)
+                                               /\ last' = [o |-> o, pol |-> TableOf(f), sc |-> NoScope, allow |-> {}, fail |-> k]
        [] kind = "select" ->
             \E o \in C12Ops : \E allow \in SUBSET (Repos \cup {Star}) :
-               /\ CheckedApply(o, SelPol(allow, Repos), NoScope)
-               /\ last' = [o |-> o, pol |-> SelPol(allow, Repos), sc |-> NoScope, allow |-> allow]
+               /\ \/ CheckedApply(o, SelPol(allow, Repos), NoScope)
+                     /\ last' = [o |-> o, pol |-> SelPol(allow, Repos), sc |-> NoScope, allow |-> allow, fail |-> -1]
+                  \/ \E k \in FailPoints(o) : CheckedListFail(o, SelPol(allow, Repos), NoScope, k)
+                                               /\ last' = [o |-> o, pol |-> SelPol(allow, Repos), sc |-> NoScope, allow |-> allow, fail |-> k]
        [] kind = "sub" ->
             \E o \in SubOps(IF step < HostileSteps THEN CallerNames ELSE CallerNames \ HostileNames) : \E sc \in ScopesFor(o) :
                /\ SubApply(o, sc)
-               /\ last' = [o |-> o, pol |-> <<>>, sc |-> sc, allow |-> {}]
+               /\ last' = [o |-> o, pol |-> <<>>, sc |-> sc, allow |-> {}, fail |-> -1]
 FSpec == FInit /\ [][FNext]_mcvars
 
 \* ------------------------------------------------------------ properties --
@@ -137,17 +142,23 @@ IsC12 == kind \in {"checker", "select"}
 RejectedNeverReachesBackend == [][IsC12 => RejectedNeverReachesBackendStep(last'.o, last'.pol)]_mcvars
 ListingFiltered == [][IsC12 => ListingFilteredStep(last'.o, last'.pol)]_mcvars
 ErrorIsPolicyError == [][IsC12 => ErrorIsPolicyErrorStep(last'.o, last'.pol)]_mcvars
-AllowedIsTransparent == [][IsC12 => AllowedIsTransparentStep(last'.o, last'.pol)]_mcvars
+AllowedIsTransparent == [][(IsC12 /\ last'.fail < 0) => AllowedIsTransparentStep(last'.o, last'.pol)]_mcvars
 SelectErrorKinds == [][kind = "select" => SelectKindsOK(last'.allow, Repos)]_mcvars
 \* consultations are exactly: the static ones up to the first failure; for a listing that was
 \* let through, then one Read consultation per item the backend listed
 ConsultationsExact ==
-  [][IsC12 => LET o == last'.o
+  [][(IsC12 /\ last'.fail < 0) => LET o == last'.o
                   cs == StaticCons(o) IN
               IF Rejected(o, last'.pol) THEN cons' = SubSeq(cs, 1, FirstFail(cs, last'.pol))
               ELSE IF o.op = "ListRepos" THEN Len(cons') = 1 + Len(res'.items) /\ cons'[1] = cs[1]
               ELSE cons' = cs]_mcvars
 
+\* a listing cut short by a backend error delivers a prefix of what the full one delivers
+FailedListingIsPrefix ==
+  [][(IsC12 /\ last'.fail >= 0) =>
+       /\ ~wres'.ok /\ wpe' = None /\ bcalls' = BCallsOf(last'.o) /\ BackendUnchanged
+       /\ LET full == Filter(res'.items, LAMBDA x : last'.pol[x]["Read"] = PolOk) IN
+          Len(wres'.items) <= Len(full) /\ wres'.items = SubSeq(full, 1, Len(wres'.items))]_mcvars
 IsSub == kind = "sub"
 Confined == [][IsSub => ConfinedCalls(bcalls')]_mcvars
 EqualsRestriction == [][IsSub => EqualsRestrictionStep(last'.o)]_mcvars
